@@ -29,6 +29,12 @@ FT(P, d, b) ==
                 \cup {[op |-> o, t |-> x] : o \in FWrap, x \in sub}
                 \cup {[op |-> o, l |-> x, r |-> y] : o \in {"and", "or"}, x \in sub, y \in subR}
 
+\* filter trees of depth 3 whose one side is restricted to depth 1 (thorough)
+FT3(P, b) ==
+    {[op |-> o, l |-> x, r |-> y] : o \in {"and", "or"}, x \in FT(P, 2, b), y \in FT(P, 1, b + FWidth(2))}
+    \cup {[op |-> o, l |-> y, r |-> x] : o \in {"and", "or"}, x \in FT(P, 2, b + FWidth(1)), y \in FT(P, 1, b)}
+    \cup {[op |-> o, t |-> x] : o \in FWrap, x \in FT(P, 2, b)}
+
 \* the filters a wrapping may carry (leaf ids 200 + 4b + ..)
 WrapFilters(b) ==
     LET i == 200 + 4 * b
@@ -88,7 +94,9 @@ ScenSet(s) ==
                     IF s.cs THEN FLeaf(s.rp, 1) ELSE f,
                     IF s.cs THEN f ELSE Absent,
                     ELeaf(1), s.entry) :
-                f \in FT(s.preds, s.d, IF s.cs THEN 100 ELSE 0), am \in s.ambs}
+                f \in (IF s.d = 3 THEN FT3(s.preds, IF s.cs THEN 100 ELSE 0)
+                       ELSE FT(s.preds, s.d, IF s.cs THEN 100 ELSE 0)),
+                am \in s.ambs}
       [] s.kind = "D" ->
             {Config(s.own, Point(5), s.amb, MC_ClockT, FLeaf(s.p, 1), Absent, e, s.entry) :
                 e \in (IF s.d = 3 THEN ET3(0) ELSE ET(s.d, 0))}
@@ -127,14 +135,10 @@ ScensFor(w) ==
             ScensE(PredsAll, AllEntries)
             \cup ScensF({"true", "false", "has_b"}, 2, {<<>>, <<KV("b", 11)>>}, {"rt", "macro", "macro_evt"})
             \cup ScensF(PredsAll, 1, {<<>>, <<KV("b", 11)>>}, {"core", "rt_as_emitter", "macro"})
+            \cup ScensF({"true", "false"}, 3, {<<>>}, {"rt"})
             \cup ScensD(2, AllEntries)
             \cup ScensD(3, {"rt", "direct"})
 
-\* the scenarios of this run as a sequence (any order)
-RECURSIVE SeqOfSet(_)
-SeqOfSet(S) == IF S = {} THEN <<>> ELSE LET x == CHOOSE y \in S : TRUE IN <<x>> \o SeqOfSet(S \ {x})
-
-MC_ScenList == SeqOfSet(ScensFor(Which))
-MC_NScen == Len(MC_ScenList)
-MC_Scen(i) == ScenSet(MC_ScenList[i])
+MC_Scens == ScensFor(Which)
+MC_Scen(s) == ScenSet(s)
 =============================================================================
